@@ -332,7 +332,7 @@ def combine1fiber(inloglam, objflux, newloglam, objivar=None, verbose=False,
                 # Combine the dispersions + skies in the dumbest way possible
                 # [sic].
                 #
-                if 'indisp' in kwargs:
+                if 'indisp' in kwargs and inbetween.any():
                     newdispweight[jnbetween] += result
                     newdisp[jnbetween] += (result *
                                            np.interp(newloglam[jnbetween],
